@@ -30,12 +30,14 @@ const (
 	F2 = "F-C15-2" // type redefinition mutates the named type in place
 	F3 = "F-C15-3" // failed method declaration leaves a nil method in the method set
 	F4 = "F-C15-4" // variable redefinition reuses the slot: old closures read the new variable under the old type
+	F5 = "F-C15-5" // code left in the buffer by a failed compound statement is run by the next var/const declaration
 )
 
 func TestMain(m *testing.M) {
 	// every history needs its own interpreter and fast.New() builds a new type universe
 	// (imports through go/importer): most of the run time is allocation, so collect less often
 	debug.SetGCPercent(800)
+	fast.New() // the first interpreter of a process costs ~1 s (much more under load): keep it out of rapid's per-case timing
 	rec = vlib.Open("C15")
 	rec.Rule("cases = histories (rapid state machine, 4-50 steps) over ONE fast.Interp: valid var/const/func/type/method declarations, assignments, pointers, closures and copies of function values, " +
 		"interleaved with inputs that fail to compile at every stage (scanner, parser, undefined identifier, type mismatch, argument count, label, faulty function body of an existing/new function, " +
@@ -63,20 +65,22 @@ type Op struct {
 	Sig  int    `json:"sig,omitempty"`
 	Body string `json:"body,omitempty"`
 	// fail
-	Fault    string `json:"fault,omitempty"`
-	Stage    string `json:"stage,omitempty"`
-	FaultSrc string `json:"fault_src,omitempty"`
-	Affects  string `json:"affects,omitempty"`  // existing or new name the faulty statement declares
-	AffKind  string `json:"aff_kind,omitempty"` // var func method type const
-	Pre      []Op   `json:"pre,omitempty"`
-	Post     []Op   `json:"post,omitempty"`
-	Sep      string `json:"sep,omitempty"`
-	Reader   bool   `json:"reader,omitempty"`
-	PreHooks int    `json:"pre_hooks,omitempty"` // reader mode: hook calls on their own earlier lines
-	HookForm string `json:"hook_form,omitempty"` // "" assign var if
-	Wrap     string `json:"wrap,omitempty"`      // "" block if for: compound statement around hook + fault
-	Trap     bool   `json:"trap,omitempty"`      // reader mode: OptTrapPanic left on (errors are printed, not returned)
-	Src      string `json:"src,omitempty"`       // rendered text (informative; recomputed on replay)
+	Fault      string `json:"fault,omitempty"`
+	Stage      string `json:"stage,omitempty"`
+	FaultSrc   string `json:"fault_src,omitempty"`
+	Affects    string `json:"affects,omitempty"`  // existing or new name the faulty statement declares
+	AffKind    string `json:"aff_kind,omitempty"` // var func method type const
+	Pre        []Op   `json:"pre,omitempty"`
+	Post       []Op   `json:"post,omitempty"`
+	Sep        string `json:"sep,omitempty"`
+	Reader     bool   `json:"reader,omitempty"`
+	PreHooks   int    `json:"pre_hooks,omitempty"`   // reader mode: hook calls on their own earlier lines
+	HookForm   string `json:"hook_form,omitempty"`   // "" assign var if
+	Wrap       string `json:"wrap,omitempty"`        // "" block if for: compound statement around hook + fault
+	NoReadback bool   `json:"no_readback,omitempty"` // the read-back of the model is left to the next step
+	Whole      bool   `json:"whole,omitempty"`       // not reader: call Interp.Eval itself instead of Compile + RunExpr
+	Trap       bool   `json:"trap,omitempty"`        // reader mode: OptTrapPanic left on (errors are printed, not returned)
+	Src        string `json:"src,omitempty"`         // rendered text (informative; recomputed on replay)
 }
 
 type History struct {
@@ -92,6 +96,10 @@ type runner struct {
 	m       *model
 	ntRead  bool // a variable of an old definition was read after a redefinition
 	ntFunc  bool // a failing input named an existing function
+	// afterFailed: the previous step was an input that failed to compile. (The read-backs in
+	// between go through compileNode, which discards stale statements of the code buffer,
+	// so failing inputs with no_readback are the ones that can expose F-C15-5.)
+	afterFailed bool
 }
 
 var errDiscard = errors.New("discard")
@@ -723,8 +731,12 @@ func (r *runner) failSrc(op Op) (string, error) {
 // soundly, nil when the property held, another error on a violation.
 func (r *runner) step(op *Op) error {
 	rec.Label("op:" + op.K)
+	wasAfterFailed := r.afterFailed
+	r.afterFailed = false
 	if op.K == "fail" {
-		return r.stepFail(op)
+		err := r.stepFail(op)
+		r.afterFailed = err == nil
+		return err
 	}
 	src, err := r.render(*op)
 	if err != nil {
@@ -750,11 +762,22 @@ func (r *runner) step(op *Op) error {
 		}
 		return nil
 	case o.runErr != nil:
+		if wasAfterFailed && op.K == "var" && op.Init != "copy" && isBasic(op.Typ) {
+			// a variable declaration with a literal or zero initialiser of a basic type has
+			// nothing that can panic: what panicked is code the failed input left behind
+			if known(F5) {
+				rec.Excluded(F5)
+				rec.Label("discard:valid-op-panicked-at-run-time")
+				return errDiscard
+			}
+			return fmt.Errorf("step %q, evaluated right after an input that failed to compile, panicked at run time (%s): code left over from the failed input ran", src, short(o.runErr))
+		}
 		if op.K != "hook" && len(moved) != 0 {
 			// the step itself contains no hook call: only code of a failed input can have made it
 			return fmt.Errorf("step %q called the hook %v (and then panicked: %s): code of an earlier failed input ran", src, moved, short(o.runErr))
 		}
 		rec.Label("discard:valid-op-panicked-at-run-time")
+		rec.Note("valid step %q panicked at run time: %s", src, short(o.runErr))
 		return errDiscard
 	}
 	if op.K == "hook" {
@@ -839,8 +862,16 @@ func (r *runner) stepFail(op *Op) error {
 			return errDiscard
 		}
 		failure = rerr
-	} else {
+	} else if op.Whole {
+		// Interp.Eval itself: the failure stage is not observable, the faults are compile-time by construction
 		rec.Label("fail:entry:Eval")
+		r.out.Reset()
+		if failure = vlib.Try(func() { r.ir.Eval(src) }); failure == nil {
+			rec.Label("discard:accepted:" + op.Fault)
+			return errDiscard
+		}
+	} else {
+		rec.Label("fail:entry:Compile+RunExpr")
 		o := r.eval(src)
 		if o.compileErr == nil {
 			rec.Label("discard:accepted:" + op.Fault)
@@ -874,6 +905,10 @@ func (r *runner) stepFail(op *Op) error {
 		}
 	}
 	r.afterFailure(*op)
+	if op.NoReadback && probe == "" {
+		rec.Label("fail:readback-deferred-to-next-step")
+		return nil
+	}
 	if probe != "" {
 		if o := r.eval(probe); o.compileErr == nil {
 			return fmt.Errorf("after input %q failed to compile (%s): %q compiles now, the type gained the method of the failed declaration", src, short(failure), probe)
@@ -903,7 +938,14 @@ func runHistory(h *History) error {
 // replay of a known finding fails for as long as gomacro has the defect.
 var replaying bool
 
-func known(id string) bool { return !replaying && rec.Known(id) }
+// VERIF_C15_ASSUME_FIXED (comma separated ids) lets a proposed fix be tried in a scratch
+// worktree before the lead changes known_findings.json: those ids count as not known.
+func known(id string) bool {
+	if replaying || strings.Contains(","+os.Getenv("VERIF_C15_ASSUME_FIXED")+",", ","+id+",") {
+		return false
+	}
+	return rec.Known(id)
+}
 
 func replay(content []byte) error {
 	replaying = true
@@ -1308,6 +1350,8 @@ func (g *gen) failOp() Op {
 			op.PreHooks = uni(g.t, "pre-hooks", 3)
 			op.Trap = rapid.Bool().Draw(g.t, "trap")
 		}
+		op.Whole = !op.Reader && rapid.Bool().Draw(g.t, "whole-eval")
+		op.NoReadback = uni(g.t, "no-readback", 3) == 0
 		op.HookForm = g.pick("hook-form", []string{"", "", "assign", "var", "if"})
 		if op.AffKind == "" && f.Stage != "scanner" && f.Stage != "parser" {
 			op.Wrap = g.pick("wrap", []string{"", "", "block", "if", "for"})
@@ -1337,7 +1381,7 @@ func (g *gen) failOp() Op {
 // ---------------------------------------------------------------- the property
 
 func TestHistories(t *testing.T) {
-	rec.Check(t, rec.Scale(200, 2500), func(t *rapid.T) {
+	rec.Check(t, rec.Scale(400, 2500), func(t *rapid.T) {
 		r := newRunner()
 		g := &gen{t: t, r: r}
 		var h History
@@ -1353,6 +1397,11 @@ func TestHistories(t *testing.T) {
 			err := r.step(&h.Ops[len(h.Ops)-1])
 			if err == errDiscard {
 				rec.Label("history:discarded")
+				var srcs []string
+				for _, o := range h.Ops {
+					srcs = append(srcs, o.Src)
+				}
+				rec.Note("discarded history: %q", srcs)
 				return
 			}
 			if err != nil {
